@@ -132,6 +132,7 @@ func runMirror(events []string, props []string, seed int, args map[string]string
 		s.step = i
 		gFrom, sFrom := len(s.gLog), len(s.sLog)
 		a := s.apply(ev)
+		resend := s.resend
 		if !s.st.f.frozen {
 			// The event's asynchronous consequences (the state machine's reaction, view shifts) write too: a crash point
 			// inside them stops the process here, not one event later with the stores failing in between.
@@ -162,7 +163,11 @@ func runMirror(events []string, props []string, seed int, args map[string]string
 					s.apply("SME")
 					delete(s.sm.acted, strings.Split(ev, ":")[1])
 				}
-				a = s.apply(ev)
+				if resend != nil && !strings.HasPrefix(ev, "SMA") {
+					a.result = resend()
+				} else {
+					a = s.apply(ev)
+				}
 			}
 		}
 		s.drain(false)
